@@ -59,6 +59,10 @@ func (td TypeDeclaration) CompletionAtPos(ctx context.Context, pos hcl.Pos) []la
 			prefix := eType.Name[0:prefixLen]
 
 			editRange := eType.Range()
+			if editRange.End.Byte < editRange.Start.Byte {
+				// the parser gives an unterminated call no end
+				editRange = eType.NameRange
+			}
 			return allTypeDeclarationsAsCandidates(prefix, editRange)
 		}
 
